@@ -189,8 +189,19 @@ def genStep (env : Env) (fs : List Str) (k : Nat) (path : Str) (call : Str → C
     | .failed => ([.isfile path false, .openssl c .failed], fs, k + 1, .assertion)
     | .timeout => ([.isfile path false, .openssl c .timeout], fs, k + 1, .timeout)
 
-/-- `gen_ca_signed_certificate(cert_file_path, certificate)` -/
-def genCaSigned (cfg : Cfg) (env : Env) (host : Str) (fs : List Str) : List Eff × List Str × GenEnd :=
+/-- sequencing of the guarded steps: the next one runs only when the previous one
+    ended normally (an `AssertionError` / `TimeoutExpired` leaves the function) -/
+def andThen (r : List Eff × List Str × Nat × GenEnd)
+    (next : List Str → Nat → List Eff × List Str × Nat × GenEnd) : List Eff × List Str × Nat × GenEnd :=
+  match r.2.2.2 with
+  | .done =>
+    let n := next r.2.1 r.2.2.1
+    (r.1 ++ n.1, n.2)
+  | _ => r
+
+/-- `gen_ca_signed_certificate(cert_file_path, certificate)`: public key (self-signed
+    certificate carrying the SAN), CSR, CA signature — each behind its own `isfile` guard -/
+def genCaSigned (cfg : Cfg) (env : Env) (host : Str) (fs : List Str) : List Eff × List Str × Nat × GenEnd :=
   let dir := cfg.caCertDir.getD []
   let signKey := cfg.caSigningKeyFile.getD []
   let alt := some [host]
@@ -198,17 +209,13 @@ def genCaSigned (cfg : Cfg) (env : Env) (host : Str) (fs : List Str) : List Eff 
   let pub := pubKeyPath dir host
   let csr := csrPath dir host
   let crt := certFilePath dir host
-  match genStep env fs 0 pub
-      (fun tmp => genPublicKey cfg.openssl pub signKey [] subject alt none validityDays tmp) with
-  | (e1, fs1, k1, .done) =>
-    (match genStep env fs1 k1 csr (fun _ => genCsr cfg.openssl csr signKey [] pub) with
-     | (e2, fs2, k2, .done) =>
-       (match genStep env fs2 k2 crt
-           (fun tmp => signCsr cfg.openssl csr crt (cfg.caKeyFile.getD []) [] (cfg.caCertFile.getD [])
-                         env.serial alt none validityDays tmp) with
-        | (e3, fs3, _, r) => (e1 ++ e2 ++ e3, fs3, r))
-     | (e2, fs2, _, r) => (e1 ++ e2, fs2, r))
-  | (e1, fs1, _, r) => (e1, fs1, r)
+  andThen
+    (andThen
+      (genStep env fs 0 pub (fun tmp => genPublicKey cfg.openssl pub signKey [] subject alt none validityDays tmp))
+      (fun fs1 k1 => genStep env fs1 k1 csr (fun _ => genCsr cfg.openssl csr signKey [] pub)))
+    (fun fs2 k2 => genStep env fs2 k2 crt
+      (fun tmp => signCsr cfg.openssl csr crt (cfg.caKeyFile.getD []) [] (cfg.caCertFile.getD [])
+                    env.serial alt none validityDays tmp))
 
 /-- `generate_upstream_certificate(certificate)`: `none` = `HttpProtocolException`
     (a mandatory flag is falsy) -/
@@ -221,7 +228,7 @@ def generateUpstreamCertificate (cfg : Cfg) (env : Env) (host : Str) :
     if env.fs.contains crt then some ([.isfile crt true], env.fs, .done)
     else
       let r := genCaSigned cfg env host env.fs
-      some (.isfile crt false :: r.1, r.2.1, r.2.2)
+      some (.isfile crt false :: r.1, r.2.1, r.2.2.2)
 
 /-- the acknowledgement `PROXY_TUNNEL_ESTABLISHED_RESPONSE_PKT` -/
 def ack : Bytes := Gen.pkt_PROXY_TUNNEL_ESTABLISHED_RESPONSE_PKT
